@@ -77,14 +77,27 @@ def apply_dev(net, d):
     elif k == "sc_vn":        # transformer rated voltage unequal to the bus rated voltage: [k, trafo, side, factor]
         _, t, side, f = d
         net.trafo.at[t, "vn_%s_kv" % side] = float(net.trafo.at[t, "vn_%s_kv" % side]) * f
+    elif k == "sc_reindex":   # relabel the buses (applied after all other deviations): "perm" permutation of 0..n-1, "gaps" permuted + gaps
+        pass
     else:
         na.apply_dev(net, d)
+
+
+def bus_map(n, mode):
+    """old bus label -> new label.  perm: cyclic shift so that every label moves and the row order no longer matches the labels;
+    gaps: additionally non-contiguous"""
+    if mode == "perm":
+        return {i: (i - 1) % n for i in range(n)}
+    return {i: [7, 0, 12, 3, 9, 5, 20, 1][i] for i in range(n)}
 
 
 def build(case):
     net = base(case["base"])
     for d in case.get("devs", ()):
         apply_dev(net, d)
+    for d in case.get("devs", ()):
+        if d[0] == "sc_reindex":
+            pp.reindex_buses(net, bus_map(len(net.bus), d[1]))
     return net
 
 
@@ -93,6 +106,8 @@ def menu(b, tier="quick"):
     h0, h1 = HOT[b]
     big = 20. if b == "M4" else 1.
     m = [["sc_eg", h0, 500., 300., 0.2, True],
+         ["sc_eg", 0, 700., 400., 0.3, True],            # second ext_grid on the bus of the base ext_grid
+         ["sc_reindex", "perm"],
          ["sc_gen", h0, 1.0, 10. * big, None, True],
          ["sc_gen", h1, 1.05, 6. * big, 5., True],
          ["sc_sgen", h0, 4. * big, 1.2, True],
@@ -100,8 +115,8 @@ def menu(b, tier="quick"):
          ["sc_motor", h0, 2. * big, 1.0, True],
          ["ward", h0, True],
          ["shunt", h0, 0.1 * big, -0.5 * big, 1, 1.0, True]]
-    if b in ("R3", "T3"):     # bus 3 is fused with the collision bus 2: a second generator with another K_G on the same node
-        m += [["sc_gen", 3, 1.05, 6., 5., True]]
+    if b in ("R3", "T3"):     # bus 3 is fused with the collision bus 2: a second generator / ext_grid with other data on the same node
+        m += [["sc_gen", 3, 1.05, 6., 5., True], ["sc_eg", 3, 300., 200., 0.15, True]]
     if b == "T3":
         m += [["sc_psgen", 0, 1.0, True, None], ["sc_psgen", 0, 1.05, False, None],
               ["set", "trafo", 0, "vector_group", "YNyn"], ["set", "trafo", 0, "vector_group", "Yzn"],
@@ -114,6 +129,7 @@ def menu(b, tier="quick"):
               ["sc_gen", h0, 1.0, 10. * big, None, False],
               ["sc_sgen", h0, 4. * big, 1.2, False],
               ["sc_eg", h1, 800., 800., 0.1, True],
+              ["sc_reindex", "gaps"],
               ["set", "line", 0, "parallel", 2]]
         if b == "T3":
             m += [["sc_psgen", 0, 1.0, False, 4.], ["sc_vn", 0, "hv", 1.05], ["set", "trafo", 0, "parallel", 2],
@@ -134,7 +150,8 @@ def compatible(devs):
     """at most one power-station generator per unit transformer; one LV feeder"""
     n_ps = sum(1 for d in devs if d[0] == "sc_psgen")
     n_lv = sum(1 for d in devs if d[0] == "sc_lv")
-    return n_ps <= 1 and n_lv <= 1
+    n_ri = sum(1 for d in devs if d[0] == "sc_reindex")
+    return n_ps <= 1 and n_lv <= 1 and n_ri <= 1
 
 
 def run_sc(net, **kw):
